@@ -86,8 +86,8 @@ def run(st, tier, seed):
     res.rule = ("accepted programs x {pil, des} x configurations (hash seed, 0-4 earlier compiles in the process, invocation directory); "
                 "non-trivial = program with an anonymous region; distinct by (source, configuration)")
     rng = core.rng_for(seed, "c18")
-    n = 9 if tier == "quick" else 300
-    nconf = 4 if tier == "quick" else 14
+    n = 9 if tier == "quick" else 110
+    nconf = 4 if tier == "quick" else 12
     drv = core.Driver() if st.driver_ok else None
     reqs, meta = [], []
     worker = os.path.join(core.HERE, "c18_worker.py")
